@@ -269,7 +269,7 @@ H("C10", "wrath_header", "c10_write", timeout=1200,
 for _h in ["c11_wrath_client_header_enc", "c11_wrath_client_header_dec", "c11_wrath_server_header_enc", "c11_wrath_server_header_dec",
            "c11_wrath_read_client", "c11_wrath_read_server", "c11_wrath_read_server_fifth", "c11_wrath_write_client", "c11_wrath_write_server",
            "c11_wrath_read_client_facade", "c11_wrath_read_server_facade", "c11_wrath_write_client_facade", "c11_wrath_write_server_facade"]:
-    H("C11", "wrath_header", _h, timeout=1800, tiers=(["thorough"] if _h.endswith("_facade") else ["quick", "thorough"]),
+    H("C11", "wrath_header", _h, timeout=(5400 if "read_server" in _h else 1800), tiers=(["thorough"] if (_h.endswith("_facade") or "read_server" in _h) else ["quick", "thorough"]),
       encodes=["wrath_header::{ClientCrypto,ServerCrypto,ClientEncrypterHalf,ServerEncrypterHalf,ClientDecrypterHalf,ServerDecrypterHalf}::* header entry points"],
       inputs="arbitrary cipher states; arbitrary size/opcode or wire bytes; nondeterministic reader/writer",
       asserts="helpers/facade/accessors == raw operation on the wire layout; failed read leaves the decrypter unchanged (5-byte header failing at byte 5: state of the 4-byte attempt, completable later); failing writer reported",
@@ -524,7 +524,7 @@ for _m, _n, _of, _what in _C14:
       bounds="see the harness under its own property", assumes=[BIG_ASSUME])
 H("C18", "matrix_card", "c18_proof_agreement", timeout=3600, oracle_features=["cap64", "q32"],
   encodes=["matrix_card::verify_matrix_card_hash", "MatrixCardVerifier::{new, get_matrix_coordinates, enter_value, into_proof}", "MatrixCard::get_number_at_coordinates"],
-  inputs="2x2 card; (digits, challenges) in {(1,1), (2,2)}; seed, session key, card contents, position of one mistyped digit: any",
+  inputs="2x2 card; (digits, challenges) = (2,2); seed, session key, card contents, position of one mistyped digit: any",
   asserts="proof of the printed digits at the challenged cells is accepted; a proof from a sequence with one digit changed is refused",
   bounds="2x2 card; RC4 keystream = uninterpreted function of MD5(seed | session key); generate_coordinates uninterpreted (distinct on-card cells)", assumes=[HASH_ASSUME, "Rc4::new / apply_keystream replaced by an uninterpreted keystream (same key => same keystream); explicit collision-freeness of the recorded HMAC queries"], **_MC)
 
@@ -577,3 +577,14 @@ for _pre, _mod, _p, _n in [("c07", "vanilla_header", 23, 100), ("c08", "tbc_head
     H(_pre.upper(), _mod, "%s_call_mid" % _pre, timeout=1800,
       encodes=["%s::encrypt::encrypt" % _mod, "%s::decrypt::decrypt" % _mod], inputs="key, previous, data: any; index = %d; n = %d (both concrete)" % (_p, _n),
       asserts="a %d-byte call from key position %d equals %d spec steps on both halves" % (_n, _p, _n), bounds="n = %d, starting position %d (several key laps, lap length does not divide the key length)" % (_n, _p), assumes=[])
+
+H("C11", "wrath_header", "c11_wrath_read_server_eof", timeout=1800,
+  encodes=["ClientDecrypterHalf::read_and_decrypt_server_header", "ClientCrypto::read_and_decrypt_server_header"],
+  inputs="arbitrary client cipher state (pad window), five wire bytes, source length f = 0..=5, half or facade: any",
+  asserts="complete headers == two-step calls with the exact number of bytes consumed; a source ending early yields Err and leaves the decrypter unchanged (f < 4) or as after the 4-byte attempt (f = 4, large header), completable later",
+  bounds="byte-slice source (end of data at every offset); fragmentation/interruption for this entry point: thorough tier", assumes=[PAD_ASSUME])
+
+H("C18", "matrix_card", "c18_proof_agreement_1x1", timeout=3600, oracle_features=["cap64", "q32"],
+  encodes=["matrix_card::verify_matrix_card_hash", "MatrixCardVerifier::{new, get_matrix_coordinates, enter_value, into_proof}"],
+  inputs="2x2 card, one digit per cell, one challenge; seed, session key, card contents: any",
+  asserts="as c18_proof_agreement", bounds="2x2 card, (digits, challenges) = (1, 1)", assumes=[HASH_ASSUME, "Rc4 keystream and coordinate generation uninterpreted; explicit collision-freeness"], **_MC)
